@@ -91,7 +91,7 @@ namespace RecInt
             mod_n(temp, resmul, d);
 
             // temp = -temp mod d
-            if (temp != 0) sub(temp, c, temp);
+            if (temp != 0) sub(temp, d, temp);
 
             // temp += lastx mod d
             add(ret, temp, lastx);
